@@ -473,12 +473,22 @@ fn independence(ctx: &mut Ctx) {
                 let _ = fs.add_filter(l, opts);
             }
             let e3 = Engine::from_filter_set(fs, optimize);
+            // fourth reading: the list as one text with mixed line terminators
+            let mut text = String::new();
+            for (i, l) in lines.iter().enumerate() {
+                text.push_str(l);
+                text.push_str(if l.contains('\r') || l.contains('\n') { "\n" } else { ["\r\n", "\n", "\n", "\r\n", "\n"][(i + lines.len()) % 5] });
+            }
+            let mut fs4 = FilterSet::new(debug);
+            fs4.add_filter_list(&text, opts);
+            let e4 = Engine::from_filter_set(fs4, optimize);
             let mut reqs: Vec<gen::Req> = (0..5).map(|_| gen_request(&mut r, &accepted)).collect();
             reqs.push(gen::Req { url: "https://cdn.example/serve?params[zoneid]=5&[ad-slot]".into(), source: "https://example.com/".into(), rtype: "script" });
             let b1 = battery(&e1, &reqs);
             let bytes1 = e1.serialize_raw().ok();
-            let same_bytes = bytes1 == e2.serialize_raw().ok() && bytes1 == e3.serialize_raw().ok();
-            let same_battery = b1 == battery(&e2, &reqs) && b1 == battery(&e3, &reqs);
+            let text_ok = lines.iter().all(|l| !l.contains('\r') && !l.contains('\n'));
+            let same_bytes = bytes1 == e2.serialize_raw().ok() && bytes1 == e3.serialize_raw().ok() && (!text_ok || bytes1 == e4.serialize_raw().ok());
+            let same_battery = b1 == battery(&e2, &reqs) && b1 == battery(&e3, &reqs) && (!text_ok || b1 == battery(&e4, &reqs));
             (lines, accepted, rejected, same_bytes, same_battery)
         });
         match out {
